@@ -332,7 +332,8 @@ class Executor:
         if not objs:
             return ("init", 0)
         k = k % len(objs)
-        if not is_finite_field(objs[k]):
+        if not is_finite_field(objs[k]) or \
+                max(float(np.max(np.abs(d))) for d in objs[k].data) > 1e12:
             return ("init", 0)  # blown-up result of an unstable run: not an admissible input
         return ("res", j, k)
 
